@@ -25,12 +25,12 @@ structure GreedyOK (f : Font) (wrap : Bool) (availOf : Nat → Int) (items : Lis
   forcedFirst : ∀ l ∈ ls, ∀ b ∈ l.tail, b.forced = false
   /-- every line fits (the spaces at its two ends take no room: `lineW`), unless it is a single
       unbreakable unit — or wrapping is forbidden -/
-  fits : ∀ i (h : i < ls.length), wrap = true →
-    ((lineW f ls[i] : Nat) : Int) ≤ availOf i ∨ ls[i].length = 1
+  fits : ∀ i l, ls[i]? = some l → wrap = true →
+    ((lineW f l : Nat) : Int) ≤ availOf i ∨ l.length = 1
   /-- maximality: a line ends only at a forced break, or because the next unit, with the space
       that separates it, would not have fitted; never when white-space forbids wrapping -/
-  maximal : ∀ i (h : i + 1 < ls.length), ∀ b, ls[i + 1].head? = some b →
-    b.forced = true ∨ (wrap = true ∧ ((lineW f ls[i] + b.gap + b.w f : Nat) : Int) > availOf i)
+  maximal : ∀ i l n b, ls[i]? = some l → ls[i + 1]? = some n → n.head? = some b →
+    b.forced = true ∨ (wrap = true ∧ ((lineW f l + b.gap + b.w f : Nat) : Int) > availOf i)
 
 /-! ### the judge used on the implementation's lines
 
